@@ -68,7 +68,7 @@ Fixpoint ideal_outs (s : sources) (t : tdef) (k : nat) (outs : list outdef) (rea
   end.
 
 Definition ideal_key (s : sources) (t : tdef) (deps : list (tdef * idata)) : str :=
-  change_key H (pkg_fs s t) (state_of t (map (fun e => i_ohash (snd e)) deps)).
+  change_key H (pkg_fs s t) (state_of t (map (fun e => dep_contrib (fst e) (i_ohash (snd e))) deps)).
 
 Definition ideal_ohash (t : tdef) (key : str) (outs : list (outdef * str)) : str :=
   match td_outs t with
